@@ -1,0 +1,45 @@
+//go:build verif
+
+/*
+ * Atree - Scalable Arrays and Ordered Maps
+ *
+ * Copyright Flow Foundation
+ *
+ * Licensed under the Apache License, Version 2.0 (the "License");
+ * you may not use this file except in compliance with the License.
+ * You may obtain a copy of the License at
+ *
+ *   http://www.apache.org/licenses/LICENSE-2.0
+ *
+ * Unless required by applicable law or agreed to in writing, software
+ * distributed under the License is distributed on an "AS IS" BASIS,
+ * WITHOUT WARRANTIES OR CONDITIONS OF ANY KIND, either express or implied.
+ * See the License for the specific language governing permissions and
+ * limitations under the License.
+ */
+
+package atree
+
+// Hooks for external verification harnesses.  This file is only compiled
+// with the "verif" build tag; it only exposes process-global settings that
+// the test suite already reaches through export_test.go.
+
+// VerifSetSlabSize sets the target slab size (same as the test-only SetThreshold)
+// and returns the derived minimum and maximum slab sizes.
+func VerifSetSlabSize(n uint32) (minSize uint32, maxSize uint32) {
+	minSize, maxSize, _, _ = setThreshold(n)
+	return minSize, maxSize
+}
+
+// VerifSlabSize returns the current target slab size.
+func VerifSlabSize() uint32 {
+	return targetSlabSize()
+}
+
+// VerifSetMaxCollisionLimitPerDigest sets the first-level collision limit
+// and returns the previous one.
+func VerifSetMaxCollisionLimitPerDigest(n uint32) (old uint32) {
+	old = maxCollisionLimitPerDigest
+	maxCollisionLimitPerDigest = n
+	return old
+}
